@@ -225,6 +225,12 @@ pub fn run_checker(model: &GraphModel, strategy: Strategy, cfg: &RunCfg, want_as
 /// the graph (preferring the most recently generated state, i.e. going down a branch first).
 /// Each request waits (bounded) until the visitor has been shown the requested state.
 pub fn run_on_demand_stepwise(model: &GraphModel, cfg: &RunCfg, rng: &mut crate::rng::Rng, max_requests: usize, want_assert: bool) -> RunOut {
+    run_on_demand_requests(model, cfg, rng, max_requests, None, want_assert)
+}
+
+/// As `run_on_demand_stepwise`, optionally with a prescribed request order (states that are not
+/// pending when their turn comes are skipped).
+pub fn run_on_demand_requests(model: &GraphModel, cfg: &RunCfg, rng: &mut crate::rng::Rng, max_requests: usize, order: Option<&[u32]>, want_assert: bool) -> RunOut {
     let log = VisitLog::default();
     let slog = StateLog::default();
     let mut cfg2 = cfg.clone();
@@ -235,11 +241,31 @@ pub fn run_on_demand_stepwise(model: &GraphModel, cfg: &RunCfg, rng: &mut crate:
     let mut c = b.spawn_on_demand();
     let mut frontier: Vec<u32> = model.inits.iter().copied().filter(|s| model.inb[*s as usize]).collect();
     let mut generated: std::collections::BTreeSet<u32> = frontier.iter().copied().collect();
+    let mut turn = 0usize;
     'steps: for _ in 0..max_requests {
         if frontier.is_empty() {
             break;
         }
-        let i = if rng.pct(70) { frontier.len() - 1 } else { rng.below(frontier.len()) };
+        let i = match order {
+            Some(order) => {
+                let mut found = None;
+                while turn < order.len() && found.is_none() {
+                    found = frontier.iter().position(|x| *x == order[turn]);
+                    turn += 1;
+                }
+                match found {
+                    Some(i) => i,
+                    None => break,
+                }
+            }
+            None => {
+                if rng.pct(70) {
+                    frontier.len() - 1
+                } else {
+                    rng.below(frontier.len())
+                }
+            }
+        };
         let s = frontier.remove(i);
         let Some(fp) = std::num::NonZeroU64::new(stateright::verif::fingerprint_of(&s)) else { break };
         c.check_fingerprint(fp);
